@@ -55,6 +55,11 @@ def pause_gate(chk: Check) -> None:
     ok = bool(gates) and all(cfg.must_pass(cfg.entry, [e], lambda m: m in gates, edge_ok=no_exc) for e in execs)
     chk.ob('DOM-pause-gate', step, ok, 'every path to the execution of the state passes a test that is true whenever the process is paused and whose '
            'true branch awaits the pause future first (nothing runs while paused)', node=gates[0].ast if gates else None, kind='gate-dominates-execute')
+    # ... and it is KNOWN not to be paused where the state's execute starts: the fact has to hold in the interleaving-free region that
+    # ends at the execute (waking up from the pause future is an interleaving point: the process may have been paused anew meanwhile)
+    ok = all(('none', PAUSED) in ff.at(e) for e in execs)
+    chk.ob('DOM-pause-gate', step, ok, 'where the state\'s execute is started the process is known not to be paused (the gate is re-checked after every wake-up)',
+           node=execs[0].ast if execs else None, kind='not-paused-at-execute')
     # the attribute the gate awaits is the one on_paused creates and on_playing resolves
     op = prog.func('processes.Process.on_paused')
     created = [n for n in ast.walk(op.node) if isinstance(n, ast.Assign) and norm(n.targets[0]) == PAUSED and isinstance(n.value, ast.Call)
